@@ -212,5 +212,5 @@ outer:
 			}
 		}
 	}
-	c20Part.Run(s, hx.PerShard(hx.Pick(8000, 160000)))
+	c20Part.Run(s, hx.PerShard(hx.Pick(8000, 3200000)))
 }
